@@ -1501,8 +1501,16 @@ fn forged_opening_cfg<C: Mc, P: crate::pv::Pv<EF = C::EF, BF = C::F>>(c: &Case) 
         .class(format!("changed:{level}"))
         .nontrivial(true)
         .key(hash_of(&(c.cfg % N_CFG, sh.ext, sh.hiding, sh.cap_height, &sh.heights, &level)));
+    // sibling payloads of the Merkle rows, as the honest run supplies them (arity 2)
+    let payloads = || -> Vec<(u32, p3_circuit::ops::NpoPrivateData)> {
+        bt.op_ids
+            .iter()
+            .zip(&o.sibs)
+            .map(|(op, sib)| (op.0, perm_private_data(C::cfg(), pack_digest::<C>(sib))))
+            .collect()
+    };
     // control: everything re-derived (the path leads to another root)
-    let control = match catch(|| crate::forge::reexecute::<P>(circuit, &honest, &pins, false)) {
+    let control = match catch(|| crate::forge::reexecute_pd::<P>(circuit, &honest, &pins, false, payloads())) {
         Ok(Ok((_, t))) => {
             // the control only means something if the changed value reaches a permutation row
             let reached = t
@@ -1529,7 +1537,7 @@ fn forged_opening_cfg<C: Mc, P: crate::pv::Pv<EF = C::EF, BF = C::F>>(c: &Case) 
         return r;
     }
     // attack: honest Merkle rows, forged leaf hashing
-    let (_, mut t) = match catch(|| crate::forge::reexecute::<P>(circuit, &honest, &pins_all, false)) {
+    let (_, mut t) = match catch(|| crate::forge::reexecute_pd::<P>(circuit, &honest, &pins_all, false, payloads())) {
         Ok(Ok(x)) => x,
         _ => return rep.class("outcome:re-execution-failed"),
     };
